@@ -193,11 +193,15 @@ class Inliner:
             return self.cache[fi.qual]
         node = copy.deepcopy(fi.node)
         self.inlined[fi.qual] = []
-        for _ in range(self.max_depth):
-            before = len(self.inlined[fi.qual])
-            node.body = self._block(fi, node.body, [fi.qual])
-            if len(self.inlined[fi.qual]) == before:
-                break
+        saved, self._cur_fi = getattr(self, "_cur_fi", None), fi
+        try:
+            for _ in range(self.max_depth):
+                before = len(self.inlined[fi.qual])
+                node.body = self._block(fi, node.body, [fi.qual])
+                if len(self.inlined[fi.qual]) == before:
+                    break
+        finally:
+            self._cur_fi = saved
         node = normalise(self.prj, fi, node)
         ast.fix_missing_locations(node)
         if self.inlined[fi.qual]:
@@ -225,9 +229,47 @@ class Inliner:
             return None
         if any(isinstance(d, ast.Name) and d.id in ("property", "abstractmethod") for d in t.node.decorator_list):
             return None
+        if self._foreign(fi, t) is None:
+            return None
         return t
 
     # ---------------------------------------------------------------- binding
+    def _foreign(self, caller: FuncInfo, callee: FuncInfo):
+        """Names the callee's code takes from ITS module: spliced into a function of another module they would be looked
+        up there.  -> {name: literal} for module constants to substitute, or None when some name means something else
+        (or nothing) in the caller's module."""
+        if callee.module is caller.module:
+            return {}
+        import builtins
+        local = set(callee.params()) | _assigned_names(callee.node) | set(callee.nested)
+        for n in ast.walk(callee.node):
+            if isinstance(n, (ast.Lambda, ast.FunctionDef)):
+                a = n.args
+                local |= {x.arg for x in a.posonlyargs + a.args + a.kwonlyargs}
+            if isinstance(n, ast.comprehension):
+                local |= _assigned_names(n.target)
+        out = {}
+        nodes = list(ast.walk(callee.node))
+        for n in nodes:
+            if not (isinstance(n, ast.Name) and isinstance(n.ctx, ast.Load)) or n.id in local or hasattr(builtins, n.id):
+                continue
+            cm, km = callee.module, caller.module
+            if n.id in cm.assigns and n.id not in cm.functions and n.id not in cm.classes and n.id not in cm.imports:
+                v = cm.assigns[n.id]
+                if n.id in km.assigns and ast.dump(km.assigns[n.id]) == ast.dump(v):
+                    continue
+                if isinstance(v, ast.Constant):
+                    out[n.id] = v
+                    continue
+                return None
+            a = self.prj.resolve_name_in_module(cm, n.id)
+            b = self.prj.resolve_name_in_module(km, n.id)
+            if a is None and n.id not in cm.imports:
+                continue        # unknown in the callee's module as well (a global of another kind): leave
+            if a is not b and a != b:
+                return None
+        return out
+
     def _bind(self, callee: FuncInfo, call: ast.Call):
         params = callee.params()
         is_bound = callee.is_method() and not callee.is_static()
@@ -251,10 +293,20 @@ class Inliner:
                 d = callee.param_default(p)
                 if d is None:
                     return None
+                sub = self._foreign(self._cur_fi, callee) if getattr(self, "_cur_fi", None) is not None else None
+                if sub:
+                    d = _Rename(dict(sub), {}, callee.module.rel).visit(copy.deepcopy(d))
                 bound[p] = d
         if self_name is not None and recv is not None:
             bound[self_name] = recv
         return bound
+
+    def _defaults_fixed(self, callee, st):
+        """parameter defaults are expressions of the callee's module"""
+        sub = self._foreign(self._cur_fi, callee) if getattr(self, "_cur_fi", None) is not None else None
+        if sub:
+            st.value = _Rename(dict(sub), {}, callee.module.rel).visit(st.value)
+        return st
 
     def _instantiate(self, callee: FuncInfo, call: ast.Call):
         """-> (prelude statements binding parameters, renamed body statements) or None"""
@@ -282,6 +334,10 @@ class Inliner:
         for nm in assigned:
             if nm not in renames:
                 renames[nm] = nm + tag
+        for nm, lit in (self._foreign(self._cur_fi, callee) or {}).items() if getattr(self, "_cur_fi", None) is not None else []:
+            if nm not in mapping and nm not in renames:
+                mapping[nm] = lit
+        prelude = [self._defaults_fixed(callee, st) for st in prelude]
         rn = _Rename(mapping, renames, callee.module.rel)
         body = [rn.visit(st) for st in body]
         return prelude, body, tag
@@ -438,7 +494,13 @@ class Inliner:
                 if comp_vars & (arg_names | set(bound)):
                     outer.counter += 1
                     ren = {v: f"{v}__i{outer.counter}" for v in comp_vars}
-                new = _Rename({k: v for k, v in bound.items() if k not in comp_vars}, ren, callee.module.rel).visit(copy.deepcopy(ex))
+                mp = {k: v for k, v in bound.items() if k not in comp_vars}
+                for nm, lit in (outer._foreign(fi, callee) or {}).items():
+                    mp.setdefault(nm, lit)
+                    for k2, v2 in list(mp.items()):
+                        if isinstance(v2, ast.Name) and v2.id == nm and k2 != nm:
+                            mp[k2] = lit         # a default that names the constant
+                new = _Rename(mp, ren, callee.module.rel).visit(copy.deepcopy(ex))
                 outer.inlined[stack[0]].append(callee.qual)
                 # helpers of helpers
                 return ast.copy_location(X().visit(new) if len(stack) < outer.max_depth else new, n)
